@@ -20,13 +20,16 @@ import struct
 import subprocess
 import vcommon as vc
 
-RULE = ("one PRNG (VERIF_SEED) drives everything.  ad: every integer number type x {no option, -t limit, -p "
-        "relative, -e count} x arrays of 1..9 elements drawn from the type's boundary values (min, max, 0, -1, "
-        "half-range apart) and random ones; hd: generated files (1-3 SDS of every type, rank 1-3, with "
-        "attributes; GR images with 1-3 components; Vdatas with 1-3 fields; empty Vgroups; global attributes) "
-        "and, per file, every kind of single-point mutation incl. the extreme pairs (-128/127, 0/255, "
-        "INT_MIN/INT_MAX, values exactly half the range apart), each compared in both orders; dump: every "
-        "object of every generated file; imp: text and binary inputs of every supported type, rank 2 and 3. "
+RULE = ("one PRNG (VERIF_SEED) drives everything.  ad: every integer number type (plus little-endian / native "
+        "flavoured ones) x {no option, -t limit, -p relative, -e count} x arrays of 1..9 elements drawn from the type's "
+        "boundary values (min, max, 0, -1, half-range apart) and random ones; float32 / float64 (plain): pairs 1 and 3 "
+        "ulps apart among ordinary, denormal, tiny (1e-60) and huge (1e300) magnitudes; hd: generated files (1-3 SDS "
+        "of every type and flavour, rank 1-3, with attributes; GR images with 1-3 components; Vdatas with 1-3 fields of "
+        "every type and flavour; empty Vgroups; global attributes) and, per file, every kind of single-point mutation "
+        "incl. the extreme pairs (-128/127, 0/255, INT_MIN/INT_MAX, half the range apart, floats one ulp apart at every "
+        "magnitude), a global attribute appended / prepended / removed, each compared in both orders; dump: every "
+        "object of every generated file (all flavours); imp: every input kind alone (rank 2 and 3) and every ordered "
+        "pair of different input kinds (plus some triples) in ONE hdfimport command. "
         "A case is non-trivial when it lies in the property's domain (comparable objects, in-range values, "
         "NaN-free floats) and the tool ran; distinct by content")
 TRUSTED = ["Coq 8.16.1 kernel (vm_compute only for closed witnesses and finite tables)",
@@ -39,8 +42,9 @@ TRUSTED = ["Coq 8.16.1 kernel (vm_compute only for closed witnesses and finite t
            "the C library's printf %f is the reference for floating-point text (Python's % operator, same "
            "correctly rounded conversion); strtod/scanf of floating input is not modelled",
            "modelled, not verified: control skeleton of array_diff/match/diff_sds/diff_gr/vdata_cmp/gattr_diff/"
-           "sdsdumpfull/gdata (which loop runs when), the floating-point branches of array_diff (abstracted as "
-           "bit-pattern inequality), hdiff_list's traversal order, diff_match_dim, SDreaddata as the n-d array of C03"]
+           "sdsdumpfull/gdata (which loop runs when), IEEE arithmetic of the floating-point branches of array_diff "
+           "(only the width skeleton of the difference expression is regenerated and proved on; the executable model "
+           "flags differing bit patterns), hdiff_list's traversal order, diff_match_dim, SDreaddata as the n-d array of C03"]
 ASSUMPTIONS = ["little-endian host, two's-complement int8/16/32/64 (gcc)",
                "property domain: NaN-free floating data without negative zero; objects matched by name are of the "
                "same class, type and shape ('not comparable' objects are outside the equality claim); datasets "
